@@ -274,7 +274,9 @@ Definition cmd_ser (tys vals : bytes) : bytes :=
          [show_route "tp" toml (de_value t) (Some doc_toml); show_route "tpp" toml (de_value t) (Some doc_toml);
           show_route "ep" edit (de_value t) (Some doc_edit_plain); show_route "epp" edit (de_value t) (Some doc_edit_pretty);
           show_route "doc" edit (de_value t) (Some doc_edit_plain);
-          show_route "val" (tv_ser t v) (tv_de t) None; show_route "tab" (tv_ser_table t v) (tv_de t) None]
+          show_route "val" (tv_ser t v) (tv_de t) None; show_route "tab" (tv_ser_table t v) (tv_de t) None;
+          (* evidence: is the case inside the hypotheses of the theorems? *)
+          (if has_type_b t v then str "typed=1" else str "typed=0")]
   | _, _ => str "BADCASE"
   end.
 
